@@ -40,7 +40,14 @@ RULE = ("files are rendered from a cell grammar {empty, plain, leading/trailing 
         "validation modes, 1-4 columns, 0-90 rows, cells quoted / blank-led at random, chunk_row_size = smallest supported, +1, "
         "+0..30 or one window, include/exclude lists, columns missing from the schema, schema given as importer-definition "
         "dictionary or as JSON schema file, 80% of the cases with acceptable cells only; plus a seed-independent family in which "
-        "windows of empty records fill the index buffer before a long typed cell doubles its value budget. The driver op also compares the full flag of every kernel call. Non-trivial = the model made more than one kernel call, "
+        "windows of empty records fill the index buffer before a long typed cell doubles its value budget; plus the stratified "
+        "rejected-cell family (typed_reject_cases, seed independent): a typed column beside a one-byte fixed-string column whose "
+        "long cell in row 3 forces a regrowth, a cell of class {empty, unparseable, out of dtype range, impossible date} in every "
+        "row 0..5 in turn x {bool, int8, uint16, float64} x {strict, allow_empty, relaxed} and datetime / date x chunk_row_size "
+        "{smallest supported, +1, (+3 thorough), one window} - every rejecting combination is measured in the three strata first "
+        "row of the file / last row of a kernel block / first row after a regrowth (reject-stratum:* in the distribution), the "
+        "accepting combinations must import with the flag cleared - and two-column files with two rejected cells of different "
+        "exception classes, earlier row in the later column, both column orders, smallest chunk_row_size and one window. The driver op also compares the full flag of every kernel call. Non-trivial = the model made more than one kernel call, "
         "or the file has a quoted cell or a blank-led cell; distinct = distinct case line.")
 ASSUMPTIONS = [
     "supported regime of the property: every record (and the header line) fits in the byte window 2*chunk_row_size*columns; "
@@ -73,7 +80,12 @@ LEVEL_TEXT = ("Kernel-checked theorems, for all well-formed files of any size, a
               "chunk_row_size of the regime and every regrowth the public entry point returns, for every selected column, C06's "
               "specification applied to the WHOLE column of cell texts (read_csv_typed_eq_spec: typed import = C06.spec o "
               "C05.spec), every companion with exactly one entry per record (typed_companions_aligned), provided no selected "
-              "cell is rejected by its importer's validation mode.")
+              "cell is rejected by its importer's validation mode; (5) if some selected cell IS rejected, the public entry "
+              "point raises for every chunk_row_size of the regime, every starting budgets >= 1 and the same fuel "
+              "(read_csv_typed_raises, read_file_typed_raises; typed_raise_chunk_size_unobservable: two chunk sizes both "
+              "succeed with equal output or both raise), and the error is what the importer raises on the first rejected "
+              "cell - index_map order, then row order - of the first kernel block that holds one (Reported), of the class "
+              "typed_reject_error_class gives per importer kind.")
 LEVEL_NOTE = ("window_chunking_unobservable, regrowth_unobservable, chunk_size_unobservable and read_csv_eq_spec are proved at full "
               "strength (hypotheses: well-formed RFC-4180 table with a header line, chunk_row_size > 0, every line fits the byte window "
               "2*chunk_row_size*columns; for the driver-level theorems additionally every starting value budget >= 1, which "
@@ -88,10 +100,15 @@ LEVEL_NOTE = ("window_chunking_unobservable, regrowth_unobservable, chunk_size_u
               "importer definitions (distinct category keys; the number parser rejects blank text and converts str(invalid_value) "
               "to invalid_value; parsers are data: modelled int() with a dtype range, or a finite text->value table for floats) "
               "and that every selected cell is acceptable to its importer (cellOK, decided per cell). When a cell is rejected "
-              "only the importer-level half is proved (read_csv_typed_raises_partial: import_part on any block holding a "
-              "rejected cell raises); the lift to the driver loop is open - whether the import raises does not depend on chunk "
-              "boundaries, which of several rejected cells is reported does (first kernel call, then index_map order); the "
-              "correspondence compares the error class on every csv_typed case with a rejected cell. To state the composition "
+              "read_csv_typed_raises holds at the public entry point (the importer-level read_csv_typed_raises_partial is "
+              "kept): the driver invariant DI extended by 'no rejected cell consumed so far' (DIC, Lemmas/CsvRaise.lean), "
+              "one iteration split at the importers into ok- and error-continuation (driver_step_split), importers that "
+              "reject (ImpRej: import_part on a block returns rejErr of the block's first rejected cell). Whether the "
+              "import raises does not depend on chunk boundaries; which of several rejected cells is reported does (first "
+              "kernel block, then index_map order, then row order) - hence also the exception class when the rejected "
+              "cells differ in class (example in Props/C0506.lean). The correspondence compares the error class of model "
+              "and code AND the reported column / cell text with the prediction 'first rejected cell of the first block' "
+              "computed from the model's kernel-block trace, on every csv_typed case that raises. To state the composition "
               "the kernel lemma now also exports that the reported entries stay strictly inside each column's value budget "
               "(KernelRes.caps), which is what the leaky importer's free-text staging array of that size needs.")
 TECHNIQUE = "Lean 4 theorems over an executable model + differential correspondence with the real code"
@@ -348,6 +365,7 @@ def gen_cases(tier, rng):
     # ---- 3b. the public path with schema-typed columns (C05 o C06): small chunk_row_size, typed columns cross many kernel
     #          calls and regrowths; compared with the composed model and with both oracles
     cases.extend(typed_regrowth_cases())
+    cases.extend(typed_reject_cases(quick))
     cases.extend(typed_cases(rng, 240 if quick else 6000))
     # ---- 4. kernel level: every byte string over a 5-letter alphabet, header or not, ample and tiny budgets
     alpha = [ord("x"), SEPB, Q, NLB, WSB]
@@ -674,6 +692,178 @@ def typed_regrowth_cases():
     return out
 
 
+# ---- rejected cells, stratified (read_csv_typed_raises): importer kind x validation mode x class of the cell x row position ----
+REJECT_TEXTS = {
+    # kind: (column descriptor extras, acceptable text, {class: text})
+    "bool": (dict(invalid=1), b"yes", {"empty": b"", "bad": b"tru"}),
+    "int": (dict(dtype="int8", invalid=0), b"12", {"empty": b"", "bad": b"1.5", "range": b"300"}),
+    "uint": (dict(dtype="uint16", invalid="max"), b"7", {"empty": b"", "bad": b"x7", "range": b"-1"}),
+    "float": (dict(dtype="float64", invalid=160.5), b"1.5", {"empty": b"", "bad": b"1.5x"}),
+    "datetime": (dict(day=True, flag=True), b"2020-06-15 19:45:39", {"empty": b"", "raise": b"2020-02-30 00:00:00"}),
+    "date": (dict(day=True, flag=True), b"2021-03-04", {"empty": b"", "raise": b"2021-02-30"}),
+}
+REJECT_ROWS = 6
+REJECT_LONG_ROW = 3
+
+
+def _reject_col(key, mode, name):
+    extra, good, classes = REJECT_TEXTS[key]
+    kind = "int" if key == "uint" else key
+    col = dict(kind=kind, name=name, **extra)
+    if kind in ("bool", "int", "float"):
+        col["mode"] = mode
+    return col, good, classes
+
+
+def typed_reject_cases(quick=False):
+    """seed independent. One typed column `a` under test and a one-byte fixed-string column `b` whose long cell in row 3
+    overflows its value budget (every run has a regrowth, and the record behind it is the first row of a kernel block); the
+    cell of the given class is put into EVERY row position in turn, for every importer kind, every validation mode and every
+    class of cell text (also the combinations the mode accepts: the import must then succeed with the flag cleared), with
+    chunk_row_size = smallest supported, +1, +3 (thorough; kernel blocks of one to four records) and one window (quick: the
+    combinations the mode accepts only in rows 0, 3, 5). Plus two-column files
+    with two rejected cells of different exception classes, the earlier row in the later column, in both column orders: which
+    one is reported depends on the chunking (row order across blocks, index_map order within a block)."""
+    out, n = [], 0
+    names = [h.decode() for h in NAMES[:2]]
+    for key in REJECT_TEXTS:
+        modes = ["strict", "allow_empty", "relaxed"] if key in ("bool", "int", "uint", "float") else [None]
+        for mode in modes:
+            col, good, classes = _reject_col(key, mode, names[0])
+            colb = dict(kind="fixed", name=names[1], strlen=1)
+            for cls, text in classes.items():
+                accepted = reject_class(col, text) is None
+                for pos in range(REJECT_ROWS):
+                    if quick and accepted and pos not in (0, REJECT_LONG_ROW, REJECT_ROWS - 1):
+                        continue
+                    rows = []
+                    for r in range(REJECT_ROWS):
+                        a = text if r == pos else good
+                        b = b"y" * (len(good) + 4) if r == REJECT_LONG_ROW else b"x"
+                        rows.append([(False, a), (False, b)])
+                    data = render(NAMES[:2], rows)
+                    lo = min_crs(data, 2)
+                    for crs in ((lo, lo + 1, 1 << 10) if quick else (lo, lo + 1, lo + 3, 1 << 10)):
+                        n += 1
+                        out.append({"op": "csv_typed", "file": list(data), "names": names, "cols": [col, colb],
+                                    "schema_names": names, "crs": crs, "include": None, "exclude": None,
+                                    "via": "json" if n % 4 == 0 else "dict", "fuel": 64 + 6 * len(data), "_n": 200000 + n,
+                                    "_clean": False, "_reject": [key, mode or "-", cls, pos]})
+    # two rejected cells of different classes: row 0 in the later column, row 1 in the earlier column
+    pairs = [("int", "strict", "range"), ("bool", "strict", "bad"), ("float", "allow_empty", "bad"), ("date", None, "raise"),
+             ("uint", "relaxed", "range"), ("datetime", None, "raise")]
+    for i, (k1, m1, c1) in enumerate(pairs):
+        for (k2, m2, c2) in pairs[i + 1:]:
+            for swap in (False, True):
+                (ka, ma, ca), (kb, mb, cb) = ((k2, m2, c2), (k1, m1, c1)) if swap else ((k1, m1, c1), (k2, m2, c2))
+                cola, gooda, clsa = _reject_col(ka, ma, names[0])
+                colb, goodb, clsb = _reject_col(kb, mb, names[1])
+                rows = [[(False, gooda), (False, clsb[cb])], [(False, clsa[ca]), (False, goodb)], [(False, gooda), (False, goodb)]]
+                data = render(NAMES[:2], rows)
+                lo = min_crs(data, 2)
+                for crs in (lo, 1 << 10):
+                    n += 1
+                    out.append({"op": "csv_typed", "file": list(data), "names": names, "cols": [cola, colb],
+                                "schema_names": names, "crs": crs, "include": None, "exclude": None, "via": "dict",
+                                "fuel": 64 + 6 * len(data), "_n": 200000 + n, "_clean": False,
+                                "_reject": [ka + "+" + kb, "-", "two-cells", 0]})
+    return out
+
+
+def reject_class(col, cell):
+    """Python rendering of Csv.rejErr (Lemmas/CsvTypedRaise.lean): the class of the exception the importer of `col` raises on
+    the cell text (None: the validation mode accepts it; 'unspecified': a timestamp text in no documented layout, about which
+    the property says nothing)"""
+    c6 = _c06()
+    k = col["kind"]
+    if k == "bool":
+        cl = c6.bool_class(cell)
+        if cl == "empty":
+            return "other:Exception" if col["mode"] == "strict" else None
+        if cl == "bad":
+            return "other:Exception" if col["mode"] in ("strict", "allow_empty") else None
+        return None
+    if k in ("int", "float"):
+        cl = c6.int_class(cell, col["dtype"]) if k == "int" else c6.float_class(cell, col["dtype"])
+        if cl == "range":
+            return "overflow_error"
+        if cl == "empty":
+            return "value_error" if col["mode"] == "strict" else None
+        if cl == "bad":
+            return "value_error" if col["mode"] != "relaxed" else None
+        return None
+    if k in ("datetime", "date"):
+        x = (c6.ts_expect if k == "datetime" else c6.date_expect)(cell)[0]
+        return {"raise": "value_error", "unspecified": "unspecified"}.get(x)
+    return None
+
+
+def predict_reject(case, calls):
+    """Python rendering of `Reported` (Props/C0506.lean, read_csv_typed_raises): given the kernel blocks of the run (`calls` =
+    written_row_count of every kernel call), the cell whose rejection the import reports: the first rejected cell - index_map
+    (= file) order of the selected columns, then row order - of the first block that holds one. None: no selected cell is
+    rejected (or the case is outside the theorem's hypotheses)."""
+    names = case["names"]
+    colcells = typed_columns(case)
+    if colcells is None or not isinstance(calls, list) or not supported(bytes(case["file"]), case["crs"], len(names)):
+        return None
+    inc, exc = case.get("include"), case.get("exclude")
+    if any(k not in names for k in (inc or []) + (exc or [])):
+        return None
+    want = [k for k in names if (inc is None or k in inc) and (exc is None or k not in exc)]
+    cols = {c["name"]: c for c in case["cols"] if c["name"] in case["schema_names"]}
+    d = 0
+    for bi, a in enumerate(calls):
+        for k in want:
+            col = cols.get(k)
+            if col is None or col["kind"] not in ("bool", "int", "float", "datetime", "date"):
+                continue
+            for r, cell in enumerate(colcells[names.index(k)][d:d + a]):
+                rc = reject_class(col, cell)
+                if rc is not None:
+                    others = sum(1 for k2 in want if k2 != k and cols.get(k2) is not None and any(
+                        reject_class(cols[k2], x) is not None for x in colcells[names.index(k2)][d:d + a]))
+                    return {"block": bi, "d": d, "a": a, "col": k, "row": d + r, "cls": rc, "cell": cell,
+                            "other_cols": others}
+        d += a
+    return None
+
+
+def reject_tags(case, mo):
+    """measured coverage of the rejected-cell strata, from the model's kernel-block trace"""
+    tags = []
+    rj = case.get("_reject")
+    if rj:
+        tags.append("reject-gen:%s:%s:%s" % (rj[0], rj[1], rj[2]))
+    if not (mo and "err" in mo and isinstance(mo.get("calls"), list)):
+        return tags
+    pred = predict_reject(case, mo["calls"])
+    if pred is None:
+        return tags
+    col = next(c for c in case["cols"] if c["name"] == pred["col"])
+    tags.append("reject:%s:%s:%s" % (col["kind"], col.get("mode", "-"), pred["cls"]))
+    flags = mo.get("flags") or []
+    row, d, a, bi = pred["row"], pred["d"], pred["a"], pred["block"]
+    if row == 0:
+        tags.append("reject-at:first-row-of-file")
+    if row == d and bi > 0 and any(x > 0 for x in mo["calls"][:bi]):
+        tags.append("reject-at:first-row-of-later-block")
+    if row == d + a - 1 and a >= 2:
+        tags.append("reject-at:last-row-of-block")
+    if d < row < d + a - 1:
+        tags.append("reject-at:inside-block")
+    if row == d and bi > 0 and bi - 1 < len(flags) and flags[bi - 1] != 0:
+        tags.append("reject-at:first-row-after-regrowth")
+    if pred["other_cols"]:
+        tags.append("reject-two-columns-in-block")
+    if rj and rj[2] != "two-cells":
+        # the three strata the generator must reach for every rejecting (kind, mode, class): measured, per combination
+        for t in list(tags):
+            if t in ("reject-at:first-row-of-file", "reject-at:last-row-of-block", "reject-at:first-row-after-regrowth"):
+                tags.append("reject-stratum:%s:%s:%s:%s" % (rj[0], rj[1], rj[2], t[10:]))
+    return tags
+
+
 def typed_columns(case):
     """the cell texts of every file column as the reference parser yields them (None: not a rectangular well-formed file)"""
     ref = parse_ref(bytes(case["file"]))
@@ -773,8 +963,32 @@ def compare_typed(case, io_, mo):
     c6 = _c06()
     if "err" in io_ or "err" in mo:
         a, b = c6.norm_err(io_.get("err", "<value>")), c6.norm_err(mo.get("err", "<value>"))
-        return None if a == b else f"impl err={a} ({io_.get('msg', '')[:100]}) model err={b}"
+        if a != b:
+            return f"impl err={a} ({io_.get('msg', '')[:100]}) model err={b}"
+        # both raise the same class. read_csv_typed_raises also says WHICH rejected cell is reported: the first one (index_map
+        # order, then row order) of the first kernel block that holds one; the blocks are those of the model's run
+        pred = predict_reject(case, mo.get("calls"))
+        if pred is None or pred["cls"] == "unspecified":
+            return None
+        where = (f"row {pred['row']} of column {pred['col']} ({pred['cell']!r}, block {pred['block']} = records "
+                 f"{pred['d']}..{pred['d'] + pred['a'] - 1}) -> {pred['cls']}")
+        if b != pred["cls"]:
+            return f"model err={b} but the first rejected cell of the first kernel block that holds one is {where}"
+        msg = io_.get("msg", "")
+        import re
+        mname = re.search(r"[Ff]ield '([^']*)'", msg)
+        if mname and mname.group(1) != pred["col"]:
+            return f"impl reports field {mname.group(1)!r} ({msg[:100]}) but the reported cell must be {where}"
+        if "can not be parsed: " in msg and msg.split("can not be parsed: ", 1)[1] != pred["cell"].decode("utf-8", "replace").strip():
+            return f"impl reports the text {msg.split('can not be parsed: ', 1)[1]!r} but the reported cell must be {where}"
+        return None
     m = mo["ok"]
+    if case.get("_reject") and case["_reject"][2] != "two-cells":
+        # the stratified family: a mode that accepts the class of cell imports the file (checked against the oracle below);
+        # a mode that rejects it must not get here
+        key, mode, cls, pos = case["_reject"]
+        if reject_class(case["cols"][0], REJECT_TEXTS[key][2][cls]) is not None:
+            return f"a {cls} cell in a {key} column (mode {mode}) must be rejected, but model and implementation import the file"
     if io_["rows"] != m["rows"]:
         return f"rows impl={io_['rows']} model={m['rows']}"
     if io_["order"] != m["order"]:
@@ -1080,6 +1294,9 @@ def nontrivial(case, mo):
     if case["op"] == "csv_kernel":
         return bool(case["src"])
     if case["op"] == "csv_typed":
+        if mo and "err" in mo and isinstance(mo.get("calls"), list):
+            pred = predict_reject(case, mo["calls"])
+            return bool(pred and pred["block"] > 0)
         return bool(mo and "ok" in mo and len(mo["ok"].get("flags", [])) > 1)
     if mo and "ok" in mo and len(mo["ok"].get("calls", [])) > 1:
         return True
@@ -1094,6 +1311,7 @@ def classify(case, mo):
     if case["op"] == "csv_typed":
         tags.extend(sorted({"typed:" + c["kind"] for c in case["cols"]}))
         tags.append("typed-via-" + case.get("via", "dict"))
+        tags.extend(reject_tags(case, mo))
         if mo and "ok" in mo:
             fl = mo["ok"].get("flags", [])
             tags.append("typed-calls=1" if len(fl) <= 1 else ("typed-calls=2-3" if len(fl) <= 3 else "typed-calls>=4"))
